@@ -60,6 +60,8 @@ class Chunks(Harness):
                         out.append(dict(fmt=fmt, rows=rows, mode=mode, no_final_newline=nofinal, crlf=False, header=hdr))
                     if fmt in ("bed3", "sam") or tier == "thorough":
                         out.append(dict(fmt=fmt, rows=rows, mode=mode, no_final_newline=False, crlf=True, header=[]))
+        out.append(dict(fmt="bed3", rows=[[1, 1, 1], [1, 2, 3], [2, 1, 1]], mode="seek", no_final_newline=False, crlf=False, header=[], join_lazy=True))
+        out.append(dict(fmt="bed3", rows=[[1, 1, 1], [3, 1, 1], [1, 1, 1], [1, 2, 2]], mode="prepend", no_final_newline=True, crlf=False, header=[], join_lazy=True))
         for fmt, recsets in S.items():
             for recs in recsets:
                 for mode in ("seek", "prepend"):
@@ -103,6 +105,16 @@ class Chunks(Harness):
             cols = F.FORMATS[skel["fmt"]]["cols"]
             res["cols"] = {nm: [r for d in parsed for r in (ctx.lst(getattr(d, nm).raw()) if kind == "id" else ctx.lst(getattr(d, nm)))]
                            for nm, kind in cols if kind in ("id", "int", "str")}
+            if skel.get("join_lazy"):
+                # the lazily read chunks of the same file, joined with np.concatenate without being parsed first
+                from bionumpy.io.npdataclassreader import NpDataclassReader
+                r2 = NumpyFileReader(ctx.file(content), buffer_class(skel))
+                if skel["mode"] == "prepend":
+                    r2.set_prepend_mode()
+                lazy_chunks = list(itertools.islice(NpDataclassReader(r2, lazy=True).read_chunks(x["k"]), n + 3))
+                joined = ctx.np.concatenate(lazy_chunks) if len(lazy_chunks) > 1 else lazy_chunks[0]
+                res["joined"] = {nm: (ctx.lst(getattr(joined, nm).raw()) if kind == "id" else ctx.lst(getattr(joined, nm)))
+                                 for nm, kind in cols if kind in ("id", "int", "str")}
         return res
 
     def _expected(self, skel, x):
@@ -126,8 +138,8 @@ class Chunks(Harness):
             return False
         conj = [TI(g) == (e.t if hasattr(e, "t") else e) for g, e in zip(flat, exp)]
         pe = self._parsed_expected(skel, lambda nm: x[nm].t, z3=True)
-        for key, rows in pe.items():
-            got = out[key] if key in out else out["cols"][key]
+        for key, rows in list(pe.items()) + ([("joined:" + k, v) for k, v in pe.items()] if "joined" in out else []):
+            got = out["joined"][key[7:]] if key.startswith("joined:") else (out[key] if key in out else out["cols"][key])
             if len(got) != len(rows):
                 return False
             for g, e in zip(got, rows):
@@ -174,6 +186,9 @@ class Chunks(Harness):
             if got != rows:
                 return (f"{skel['fmt']} file {text!r} read with min_chunk_size={k} ({skel['mode']} mode): column {key} over all chunks = {got}, "
                         f"reading the whole file gives {rows}")
+            if "joined" in cout and cout["joined"][key] != rows:
+                return (f"{skel['fmt']} file {text!r} read lazily with min_chunk_size={k} ({skel['mode']} mode), chunks joined with np.concatenate: "
+                        f"column {key} = {cout['joined'][key]}, reading the whole file gives {rows}")
         return None
 
 
